@@ -188,6 +188,26 @@ void run_t(vf::Ctx& c)
         hep::vegas_pdf<T> pdf(dims, bins);
         if (t.flag()) { for (std::size_t d = 0; d != dims; ++d) { for (std::size_t b = 1; b < bins; ++b) { pdf.set_bin_left(d, b, static_cast<T>(std::pow(static_cast<long double>(b) / bins, 0.5L + d))); } } }
         std::vector<std::uint64_t> script = scripted ? gen_script<T>(t, calls * dims, has_extreme) : std::vector<std::uint64_t>();
+        // degenerate grids, as adaptation down to the resolution of the type (or a user) produces them: bins of width zero
+        // and bins one unit in the last place wide, at boundaries that are not dyadic
+        std::size_t const degenerate = integrator == 1 ? t.pick(4) : 0;
+        if (degenerate)
+        {
+            std::uint64_t const gs = t.stream_seed();
+            for (std::size_t d = 0; d != dims; ++d)
+            {
+                for (std::size_t b = 1; b < bins; ++b)
+                {
+                    bool const hit = degenerate == 3 || (vf::mix2(gs, d * 64 + b) % 3 == 0);
+                    if (!hit) { continue; }
+                    T const prev = pdf.bin_left(d, b - 1);
+                    T const base = (b == 1 || degenerate == 3) ? (b == 1 ? static_cast<T>(0.1L + 0.8L * vf::stream_unit(gs, d)) : prev) : prev;
+                    T const left = std::max(prev, std::min(base, pdf.bin_left(d, b + 1)));
+                    pdf.set_bin_left(d, b, degenerate == 2 ? std::min(std::nextafter(left, T(2)), pdf.bin_left(d, b + 1)) : left);
+                }
+            }
+            c.label(degenerate == 2 ? "vegas-ulp-wide-bins" : "vegas-zero-width-bins");
+        }
         hep::integrand<T, LogFn<T>, true> igd(fn, dims, params);
         hep::integrand<T, LogFn<T>, false> igp(fn, dims, params);
         iterate(igd, igp, [&](auto& ig) {
